@@ -63,6 +63,15 @@ def smb1Request (m : Bytes) : Option Smb1Req :=
 def smb1Speaks (d : Bytes) : Bool :=
   d = "NT LM 0.12".toUTF8.toList || d = "SMB 2.???".toUTF8.toList || d = "SMB 2.002".toUTF8.toList
 
+/-- total length of the DER TLV at the head of `b` (definite lengths: short form, or long form with one or two length octets);
+    the security blobs of SMB are GSS-API / SPNEGO tokens, i.e. one DER TLV -/
+def derSpan (b : Bytes) : Option Nat :=
+  if b.length < 2 then none
+  else if u8 b 1 < 128 then some (2 + u8 b 1)
+  else if u8 b 1 = 129 then (if b.length < 3 then none else some (3 + u8 b 2))
+  else if u8 b 1 = 130 then (if b.length < 4 then none else some (4 + (u8 b 2 * 256 + u8 b 3)))
+  else none
+
 /-- consistency of an SMB1 response `r` (NetBIOS framed) to request message `m` -/
 def smb1ReplyOk (m : Bytes) (req : Smb1Req) (r : Bytes) : Bool :=
   match nbtBody r with
@@ -83,7 +92,11 @@ def smb1ReplyOk (m : Bytes) (req : Smb1Req) (r : Bytes) : Bool :=
         (!ds.any smb1Speaks || smb1Speaks (ds.getD (le16 p 1) [])) &&   -- … at a dialect the responder speaks, if one was offered
         le16 p bcOff ≥ 16                                  -- GUID + security blob
       | .sessionSetup =>
-        wc = 4 && le16 p 7 ≤ le16 p bcOff && le16 p 7 ≥ 1))   -- SecurityBlobLength ≤ ByteCount
+        wc = 4 && le16 p 7 ≤ le16 p bcOff && le16 p 7 ≥ 1) &&   -- SecurityBlobLength ≤ ByteCount
+     -- the announced blob length is the length of the token actually present (negotiate: behind the 16-byte GUID)
+     (match req with
+      | .negotiate _ => derSpan (p.drop (bcOff + 18)) = some (le16 p bcOff - 16)
+      | .sessionSetup => derSpan (p.drop (bcOff + 2)) = some (le16 p 7)))
 
 /-- SMB1 messages that must not be answered: reply flag set, or another command -/
 def smb1MustIgnore (m : Bytes) : Bool :=
@@ -131,10 +144,12 @@ def smb2ReplyOk (m : Bytes) (req : Smb2Req) (r : Bytes) : Bool :=
      | .negotiate ds =>
        p.length ≥ 64 && le16 p 0 = 65 &&
        ds.contains (le16 p 4) && smb2Supported.contains (le16 p 4) &&    -- DialectRevision offered and supported
-       le16 p 56 = 128 && le16 p 56 + le16 p 58 = a.length                 -- SecurityBufferOffset/Length
+       le16 p 56 = 128 && le16 p 56 + le16 p 58 = a.length &&              -- SecurityBufferOffset/Length
+       derSpan (p.drop 64) = some (le16 p 58)                              -- … is the length of the token actually present there
      | .sessionSetup =>
        p.length ≥ 8 && le16 p 0 = 9 &&
-       le16 p 4 = 72 && le16 p 4 + le16 p 6 = a.length)
+       le16 p 4 = 72 && le16 p 4 + le16 p 6 = a.length &&
+       derSpan (p.drop 8) = some (le16 p 6))
 
 def smb2MustIgnore (m : Bytes) : Bool :=
   m.length ≥ 64 && sub m 0 4 = [0xfe, 0x53, 0x4d, 0x42] &&
